@@ -28,11 +28,11 @@ TECHNIQUE = ("bounded exhaustive enumeration of converter settings (61 bit resol
 LEVEL_TEXT = ("Every (bit resolution 4..64, voltage range out of 40) pair is run through simple_adc (default and the four "
               "explicit data types), sar_adc and sar_adc_with_noise with zero noise on a real detector whose signal frame "
               "holds the sorted input vector: -inf, far below, min -1/0/+1 ulp, all 2^b-1 transition points of the ideal "
-              "transfer functions (simple and SAR) -1/0/+1 ulp for b <= 10 (quick) / <= 13 (thorough), nine transition "
+              "transfer functions (simple and SAR) -1/0/+1 ulp for b <= 10 (quick) / <= 16 (thorough), nine transition "
               "points at both ends and mid-scale for every larger b, 21 interior points, max -1/0/+1 ulp, far above, +inf. "
               "The image must be unsigned and wide enough, within [0, 2^b-1], non-decreasing, 0 at or below min and full "
               "scale at or above max (simple ADC); the noisy SAR with zero noise must equal the SAR bit for bit.")
-LEVEL_NOTE = ("Bounded: 40 voltage ranges; all code transitions only for b <= 10 / 13, selected transitions above; "
+LEVEL_NOTE = ("Bounded: 40 voltage ranges; all code transitions only for b <= 10 / 16, selected transitions above; "
               "monotonicity between enumerated points of larger resolutions is not claimed. No expected code values are "
               "used - only the relations of the statement. Trusted: numpy comparisons, Python's exact Fraction->float "
               "rounding.")
@@ -69,7 +69,7 @@ def expected_size(tier, seed):
 
 
 def enumerate_cases(tier, seed):
-    full = 13 if tier == "thorough" else 10
+    full = 16 if tier == "thorough" else 10
     return [{"bits": b, "ri": ri, "range": list(RANGES[ri]), "all_transitions": b <= full}
             for b in BITS for ri in range(len(RANGES))]
 
